@@ -28,7 +28,10 @@ Replay(evs, i, mem) ==
             <<"TemplateUntouched", e.op = "fit" => \A c \in ch : c[2] # "template">>,
             <<"FitWritesOnlyFittedState", e.op = "fit" => \A c \in ch : c[1] = e.m => MayChange("fit", c[2])>>,
             <<"NewIsFresh", e.op = "new" => \A c \in ch : c[1] = e.m>>,
-            <<"Repeatable", IsEval(e.op) /\ e.deterministic => \A x \in prev : x[3] = e.dig>>
+            <<"Repeatable", IsEval(e.op) /\ e.deterministic => \A x \in prev : x[3] = e.dig>>,
+            (* the result depends only on the state of the model (its new / fit operations), not on which *)
+            (* evaluations were made before: equal to the result on a twin without earlier evaluations   *)
+            <<"HistoryIndependent", e.twin => e.twinsame>>
           >>
           mem2 == IF IsEval(e.op) THEN (IF e.deterministic THEN mem \cup {<<e.m, e.e, e.dig>>} ELSE mem)
                   ELSE {x \in mem : x[1] # e.m}
